@@ -106,8 +106,22 @@ fn write_graph(dir: &Path, net: &Net, v: &Variant) -> (String, String) {
         vs.push('\n');
     }
     write(&vp, &vs, v.gzip_vertices);
-    let mut es = String::from(if v.extra_column == 2 { "road_name,edge_id,src_vertex_id,dst_vertex_id,distance\n" } else if v.edge_extra_column { "edge_id,src_vertex_id,dst_vertex_id,distance,road_name\n" } else { "edge_id,src_vertex_id,dst_vertex_id,distance\n" });
+    // (column order 2 of the vertex file goes with an edge file whose columns are listed in another order under their names)
+    let edge_columns_permuted = v.extra_column != 2 && !v.edge_extra_column && v.order % 3 == 2;
+    let mut es = String::from(if v.extra_column == 2 {
+        "road_name,edge_id,src_vertex_id,dst_vertex_id,distance\n"
+    } else if v.edge_extra_column {
+        "edge_id,src_vertex_id,dst_vertex_id,distance,road_name\n"
+    } else if edge_columns_permuted {
+        "distance,dst_vertex_id,edge_id,src_vertex_id\n"
+    } else {
+        "edge_id,src_vertex_id,dst_vertex_id,distance\n"
+    });
     for (i, (s, d, l)) in net.edges.iter().enumerate() {
+        if edge_columns_permuted {
+            es.push_str(&format!("{},{},{},{}\n", l, d, i, s));
+            continue;
+        }
         if v.extra_column == 2 {
             es.push_str(&format!("{},{},{},{},{}\n", free_text(i + 1), i, s, d, l));
         } else if v.edge_extra_column {
